@@ -395,11 +395,18 @@ func findObject(pd *container, path string) (container, string) {
 }
 
 func (d *partialDoc) set(key string, val *lazyNode) error {
+	if *d == nil {
+		// the document (or this value) is null, not an object
+		return fmt.Errorf("unable to set key %s: %w", key, ErrInvalid)
+	}
 	(*d)[key] = val
 	return nil
 }
 
 func (d *partialDoc) add(key string, val *lazyNode) error {
+	if *d == nil {
+		return fmt.Errorf("unable to add key %s: %w", key, ErrInvalid)
+	}
 	(*d)[key] = val
 	return nil
 }
